@@ -189,8 +189,39 @@ def replay_coll(recs):
     return out
 
 
+def replay_grid(grids):
+    """PolygonCollection with TWO collection axes in 3-space: a 2 x 2 grid whose rows hold one polygon each, embedded by two
+    different affine maps (so that neighbouring elements have different supporting planes and projection axes), asked with
+    one query point per element (PointCollection of the same shape) and with the rows as one-axis collections."""
+    g = import_geometer()
+    out = []
+    for grid in grids:
+        try:
+            arr = np.array([[[emb_v(d["emb"], v) + [1] for v in d["r"]["poly"]] for d in row] for row in grid])
+            pc = g.PolygonCollection(arr)
+            nq = min(len(d["r"]["q"]) for row in grid for d in row)
+            case = {"polys": [[d["r"]["poly"] for d in row] for row in grid], "embeddings": [[d["emb"] for d in row] for row in grid]}
+            for j in range(0, nq, 3):
+                pts = np.array([[emb_h(d["emb"], d["r"]["q"][j]) for d in row] for row in grid])
+                exp = np.array([[d["r"]["a"]["inside"][j] for d in row] for row in grid])
+                got = np.asarray(pc.contains(g.PointCollection(pts)))
+                if got.shape != exp.shape or not np.array_equal(got, exp):
+                    bad = tuple(np.argwhere(got != exp)[0]) if got.shape == exp.shape else (0, 0)
+                    d = grid[bad[0]][bad[1]]
+                    out.append(dict(site="PolygonCollection.contains/3D/two-collection-axes", stratum=LABELS[d["r"]["a"]["lab"][j]],
+                                    case={**case, "position": list(map(int, bad)), "p": pts[bad].tolist()}, expected=exp.tolist(),
+                                    observed=got.tolist() if got.shape == exp.shape else {"shape": list(got.shape)}))
+                    break
+        except Exception as ex:  # noqa: BLE001
+            out.append(dict(site="PolygonCollection.contains/3D/two-collection-axes", stratum="general", case={"grid": "2x2"}, expected="booleans",
+                            observed=f"raised {type(ex).__name__}: {ex}"))
+    return out
+
+
 def _work(job):
     try:
+        if job[0] == "grid":
+            return replay_grid(job[1])
         return replay(job[1]) if job[0] == "single" else replay_coll(job[1])
     except Exception:  # noqa: BLE001
         import traceback
@@ -225,6 +256,24 @@ def run(ctx: Ctx):
     for k, v in groups.items():
         for i in range(0, len(v), 60):
             jobs.append(("coll", v[i:i + 60]))
+    # 2 x 2 grids: two polygons (rows) x two embeddings with different projection axes (columns).  Whether a query point lies
+    # in a polygon is a fact of the plane: the harness may embed any polygon of the dump by any of the specification's maps
+    quads = [x for x in recs if x["r"]["t"] == "quad3"]
+    embs = []
+    for x in quads:
+        if x["emb"] not in embs:
+            embs.append(x["emb"])
+    grids = []
+    for i in range(0, len(quads) - 1, 2):
+        for a in range(len(embs)):
+            for b in range(len(embs)):
+                if a != b and (i // 2 + a + 2 * b) % 5 == 0:
+                    grids.append([[dict(quads[i], emb=embs[a]), dict(quads[i], emb=embs[b])],
+                                  [dict(quads[i + 1], emb=embs[a]), dict(quads[i + 1], emb=embs[b])]])
+    if len(grids) < 10:
+        raise MachineryError("too few 2 x 2 polygon grids (vacuous)")
+    grids = grids[:: max(1, len(grids) // 400)]
+    jobs += [("grid", grids[i:i + 25]) for i in range(0, len(grids), 25)]
     with Pool(16) as pool:
         results = pool.map(_work, jobs, chunksize=1)
     for res in results:
